@@ -137,6 +137,27 @@ def verify_function(repo, registry, qualname, only_variant=None):
             # ---- contract on this outcome
             meta = dict(function=qualname, variant=vtag)
             pre = f"{short}" + (f"[{vtag}]" if vtag else "")
+            for callee, mapping in c.validates:
+                att = [x for x in interp.contract_attempts if x[0] == callee]
+                good = bool(att)
+                terms = []
+                if good:
+                    cb = att[0][1]
+                    for k, ex in mapping.items():
+                        want = c.eval_spec(interp, ex, spec_env)
+                        got = cb.get(k)
+                        if got is want:
+                            continue
+                        if isinstance(want, Value) and want.mutable or isinstance(got, Value) and got.mutable:
+                            good = False          # a different (converted / copied) object reaches the check
+                            break
+                        try:
+                            terms.append(interp.veq(got, want))
+                        except Unsupported:
+                            good = False
+                            break
+                ctx.oblige(f"{pre}/validates[{callee.replace('pyrepseq.', '')} sees the caller's own arguments]",
+                           z3.And(*terms) if (good and terms) else z3.BoolVal(bool(good)), kind="post", assume_after=False, **meta)
             if kind == "raise":
                 allowed = [cl for cl in c.raises if cl.name == exc.exc or
                            __import__("pyvc.symex", fromlist=["exc_matches"]).exc_matches(exc.exc, cl.name)]
@@ -151,7 +172,7 @@ def verify_function(repo, registry, qualname, only_variant=None):
                 return ("raise", exc.exc, exc.line)
             # returned: exceptional clauses must not have applied
             for cl in c.raises:
-                if cl.expr is not None:
+                if cl.expr is not None and "may" not in cl.kw:
                     t = interp.as_bool_term(c.eval_spec(interp, cl.expr, spec_env))
                     ctx.oblige(f"{pre}/raises[{cl.name}]/must-raise", z3.Not(t), kind="must-raise", **meta)
             spec_env.vars["result"] = val
